@@ -437,6 +437,11 @@ def check_interleave():
       bad = 'the peer cannot split the byte stream into frames: %s' % chn.peer.errors[0]
     elif [k for k in kinds if k not in (M.T_DISPATCH, M.T_PING)] or kinds.count(M.T_DISPATCH) != 1:
       bad = 'the peer decoded frames of types %r, expected one Tdispatch and pings' % (kinds,)
+    elif len(chn.peer.buf):
+      bad = ('every write has completed, yet the byte stream ends inside a frame: %d bytes %r follow the last complete frame (frames decoded: %r)'
+             % (len(chn.peer.buf), bytes(chn.peer.buf[:16]), kinds))
+    elif kinds.count(M.T_PING) != 1:
+      bad = 'the 30 s ping came due once while the dispatch was blocked, but the peer decoded %d Tping frames (types %r)' % (kinds.count(M.T_PING), kinds)
     else:
       d = [f for f in got if f[0] == M.T_DISPATCH][0]
       try:
@@ -568,18 +573,19 @@ def check_headers(tags, types):
   """ReadHeader(BuildHeader(tag, type)) == (type, tag)."""
   from scales.compat import BytesIO
   from scales.thriftmux.sink import ThriftMuxMessageSerializerSink, SocketTransportSink
-  build = SocketTransportSink._BuildHeader
   read = ThriftMuxMessageSerializerSink.ReadHeader
 
-  class _S(object):
-    _EncodeTag = staticmethod(SocketTransportSink._EncodeTag)
-  s = _S()
+  class _Sock(object):
+    host, port = 'h0', 1000
+  s = SocketTransportSink(_Sock(), 'svc')   # a real transport object (never opened): headers are built by its own method
+  build = s._BuildHeader
   viol = []
   n = 0
   for tag in tags:
     for t in types:
       n += 1
-      hdr = build(s, tag, t, 5)
+      hdr = build(tag, t, 5)
+      hdr = bytes(hdr)
       ok = len(hdr) == 8 and struct.unpack('>i', hdr[:4])[0] == 4 + 5 and hdr[4:] == M.frame(t, tag)[4:8]
       got = read(BytesIO(hdr[4:])) if ok else None
       if not ok or got != (t, tag):
